@@ -187,6 +187,21 @@ def unionPick (v : Val) (alts : List (Option RClass × (Val → Outcome Py))) : 
          | _ => unionPick v rest)
       else unionPick v rest
 
+/-- a fixed-length tuple alternative of a union is wrapped in `CheckedTupleMethod`: a value of another length raises
+    `TypeError`, and the union moves on to the next alternative -/
+def tupleLen? : Ty → Option Nat
+  | .tuple ts => some ts.length
+  | .newtype _ t => tupleLen? t
+  | .ann _ t => tupleLen? t
+  | _ => Option.none
+
+def lenGuard (t : Ty) (f : Val → Outcome Py) (v : Val) : Outcome Py :=
+  match tupleLen? t with
+  | some n => (match v.items? with
+      | some xs => if xs.length == n then f v else .crash "TypeError"
+      | Option.none => f v)
+  | Option.none => f v
+
 def isIdentityTy : Ty → Bool
   | .null | .bool | .int | .float | .str => true
   | .literal vs => vs.all (fun l => match l with | .int _ | .str _ | .bool _ => true | _ => false)
@@ -272,7 +287,7 @@ def namesF : List (FieldInfo × Ty) → List String
 termination_by structural fs => fs
 def altsOf (o : SOpts) : List Ty → List (Option RClass × (Val → Outcome Py))
   | [] => []
-  | t :: ts => (t.expectedClass, fun x => ser o t x) :: altsOf o ts
+  | t :: ts => (t.expectedClass, lenGuard t (fun x => ser o t x)) :: altsOf o ts
 termination_by structural ts => ts
 end
 
